@@ -299,6 +299,54 @@ def txnOf (st : State) (op : Op) : Option State :=
 def decide? (lt3 : Lt3) (rpOld rpNew : Polys) (st : State) (op : Op) (rst : RState) : Option RState :=
   (txnOf st op).map fun pre => flagTxn lt3 rpOld rpNew (ActionQueue.sortActions pre.queue) rst
 
+/-! ### `Router::contains` (which obstacles' routing polygons strictly contain a connector end)
+
+maintained incrementally by `processActions`: `adjustContainsWithDel(pid)` per removed / moved obstacle (pass 1),
+`adjustContainsWithAdd(routingPolygon, pid)` per added / moved obstacle over all connector end vertices at their
+CURRENT positions (pass 2), `generateContains(vertex)` — from scratch over `m_obstacles` — per updated end
+point (pass 3, `vertexVisibility(…, gen_contains = true)`, polyline routers only). -/
+
+structure CEntry where
+  key : VKey
+  pt : Pt
+  ids : List Nat
+  deriving Repr, Inhabited
+
+/-- `adjustContainsWithDel` -/
+def cDel (o : Nat) (cs : List CEntry) : List CEntry :=
+  cs.map fun e => { e with ids := e.ids.filter (· != o) }
+
+/-- `adjustContainsWithAdd` (`std::set::insert`) -/
+def cAdd (poly : List Pt) (o : Nat) (cs : List CEntry) : List CEntry :=
+  cs.map fun e => if inPoly poly e.pt false && !e.ids.contains o then { e with ids := o :: e.ids } else e
+
+/-- `generateContains` for the end vertex `k`, now at `p` -/
+def cGen (active : List Nat) (rp : Polys) (k : VKey) (p : Pt) (cs : List CEntry) : List CEntry :=
+  cs.map fun e => if e.key = k then { e with pt := p, ids := active.filter fun o => inPoly (rp o) p false } else e
+
+def cPass1 (cs : List CEntry) (a : Action) : List CEntry :=
+  match a.kind with
+  | .remove | .move => cDel a.id cs
+  | _ => cs
+
+def cPass2 (rpNew : Polys) (cs : List CEntry) (a : Action) : List CEntry :=
+  match a.kind with
+  | .add | .move => cAdd (rpNew a.id) a.id cs
+  | _ => cs
+
+def cPass3 (activeNew : List Nat) (rpNew : Polys) (cs : List CEntry) (a : Action) : List CEntry :=
+  match a.kind with
+  | .connChange => a.conns.foldl (fun cs u => cGen activeNew rpNew (VKey.ofEnd a.id u.1) ⟨u.2.x, u.2.y⟩ cs) cs
+  | _ => cs
+
+/-- `contains` after `processActions` (`activeNew` = ids in `m_obstacles` afterwards) -/
+def cTxn (activeNew : List Nat) (rpNew : Polys) (acts : List Action) (cs : List CEntry) : List CEntry :=
+  acts.foldl (cPass3 activeNew rpNew) (acts.foldl (cPass2 rpNew) (acts.foldl cPass1 cs))
+
+/-- the from-scratch meaning of one entry -/
+def CEntry.scratch (active : List Nat) (rp : Polys) (e : CEntry) : Prop :=
+  ∀ o, o ∈ e.ids ↔ (o ∈ active ∧ inPoly (rp o) e.pt false = true)
+
 /-! ### the comparison oracle used by the driver -/
 
 def segLo (k : Nat) (p q : Pt) : Rat := Num.sqrtLo (Num.dist2 p.x p.y q.x q.y) k
